@@ -427,13 +427,31 @@ def has_value_agrees(ctx, db, rid='C01.has-value-agrees'):
             ctx.ob(rid, f, f['key'], bad is None and len(trs) > 0, '%s answers _state != not_value' % name.split('::')[-1] + ('' if not bad else ' -- ' + bad[0]), desc=bad[0] if bad else None)
 
 
+    # the future's own bool conversion and negation are the blocking forms of the same question: both must go through has_value() and the
+    # waiting conversion of what it returns; answering from the state tag of a still pending future says "no value" while the value is on its way
+    for name in ('cocls::future::operator bool', 'cocls::future::operator!'):
+        for f, trs in traces_of(db, name, per_instance=False, helpers=False):
+            if norm(f.get('class') or '') != 'cocls::future':
+                continue
+            trs = [t for t in trs if live(t)]
+            ctx.paths(rid, len(trs))
+            bad = None
+            for tr in trs:
+                hv = [c for c in calls(tr) if norm(c.get('callee')) == 'cocls::future::has_value']
+                cv = [c for c in calls(tr) if norm(c.get('callee')) == 'cocls::future::awaitable_bool::operator bool']
+                st = [it for it in tr if it.k == 'read' and (it.get('path') or '').endswith('_state')]
+                if len(hv) != 1 or len(cv) != 1 or st:
+                    bad = bad or ('%s does not answer through has_value() (%s)' % (name.split('::')[-1], 'reads the state tag directly: a pending future is reported as having no value' if st else 'has_value %d, waiting conversion %d' % (len(hv), len(cv))), tr)
+            ctx.ob(rid, f, f['key'], bad is None and len(trs) > 0, '%s waits and answers through has_value()' % name.split('::')[-1] + ('' if not bad else ' -- ' + bad[0]), desc=bad[0] if bad else None)
+
+
 PAYLOAD = ('cocls::future::_value', 'cocls::future::_exception', 'cocls::future::_ptr_value')
 
 
-def result_immutable(ctx, db):
+def result_immutable(ctx, db, rid_='C01.result-immutable'):
     """the result never changes after the resolution: the accessors only read the payload.  Moving out of a payload member (std::move(_exception),
     std::move(_value)) inside an accessor empties it for the next reader while the state tag still says it is there"""
-    rid = ctx.rule('C01.result-immutable', 'WHO', 'future::value() (both forms), operator*, wait and the awaiters\' await_resume do not move from or assign to the payload members '
+    rid = ctx.rule(rid_, 'WHO', 'future::value() (both forms), operator*, wait and the awaiters\' await_resume do not move from or assign to the payload members '
                    '(_value, _exception, _ptr_value); only set/set_ref, the constructors and the destructor write them', floor=2)
     n = 0; seen = set()
     for name in ('cocls::future::value', 'cocls::future::operator*', 'cocls::future::wait', 'cocls::co_awaiter::await_resume', 'cocls::future::awaitable_bool::await_resume'):
